@@ -135,6 +135,15 @@ def scenarios(ctx):
                 sc = c15.scenario(seq, TPS, "close", cbs=mask, ssl=ssl)
                 sc["tag"] = f"{'-'.join(seq)}|reconnect"
                 scs.append(sc)
+    # a ping timeout configured without a ping interval (no ping is ever sent, so nothing can time out): unsolicited pongs
+    # and everything after them are dispatched as always
+    for word in (["q"], ["q", "t"], ["t", "q", "p", "b"], ["Q", "T", "q", "q", "t"], ["U", "q", "B"], ["p", "q", "H", "q", "b"]):
+        for end in ("silence", "eof"):
+            for ssl in (False, True):
+                sc = scenario(word, end, ssl)
+                sc["iv"], sc["to"] = 0, 5 * TPS
+                sc["tag"] = f"{''.join(word)}|{end}+ping_timeout"
+                scs.append(sc)
     # random longer histories
     n = 3000 if ctx.thorough() else 150
     for _ in range(n):
